@@ -280,7 +280,7 @@ CHECKS["C12"] = {
              "transport is FROZEN. Oracle at quiescence: Close returned; every client (resp. handler) call returned; Closed() fired; the transport's Close was called exactly once; contexts of the active streams are done; calls "
              "issued afterwards fail. Then bytes move again: the other side shuts down too, both transports closed exactly once, no goroutine with a storj.io/drpc frame remains. "
              "serve: drpcserver.Serve on an in-memory listener with 0..3 accepted connections in drawn states (idle, handler blocked in Recv, handler blocked in Send on a stalled transport, finished RPC), optionally one more connection "
-             "offered at the instant of the stop; Serve is stopped by context cancel or listener failure. Oracle recorded by the goroutine that called Serve at the instant it returns: every accepted transport closed exactly once and no ServeOne goroutine alive. "
+             "offered at the instant of the stop (Serve held right after Accept returned it, or Accept itself still returning it when the stop happens); Serve is stopped by context cancel or listener failure. Oracle recorded by the goroutine that called Serve at the instant it returns: every accepted transport closed exactly once and no ServeOne goroutine alive. "
              "Non-trivial: operations in flight at the close (close); a running handler or a late connection (serve)."),
     "assumptions": E3_ASSUME + ["handlers only block inside drpc calls", "with SoftCancel a cancelled serving context first sends a cancel packet (known finding F13, see C04): the simulated transport then accepts, but never delivers, the server's bytes"],
     "subs": [
@@ -353,9 +353,9 @@ CHECKS["C19"] = {
 CHECKS["C16"] = {
     "pkg": "./migrate",
     "level": "exploration",
-    "rule": ("mux: prefix length 0..8, 0..3 routes whose prefixes differ only in their last byte, 1..4 client connections (net.Pipe behind an in-memory base listener) whose first bytes match a route, match none, or are shorter than the prefix, "
+    "rule": ("mux: prefix length 0..8, 0..3 routes whose prefixes differ only in their last byte, 1..4 client connections (net.Pipe behind an in-memory base listener) whose first bytes match a route, match none, are shorter than the prefix, or that go away without sending a byte, "
              "payload 0..200 bytes plus a marker, written in drawn splits of 1..9 bytes (so the prefix itself is split across writes), and a history of 1..12 events (Route registration, starting an Accept loop on a listener, a connection arriving, closing a "
-             "listener, cancelling Run's context, base Accept failing), each followed by quiescence. Oracle: every connection the base listener handed out is returned by exactly one Accept - the route registered for its prefix with the prefix consumed, "
+             "listener, registering a closed route again, cancelling Run's context, base Accept failing), each followed by quiescence; optionally the goroutine that unregisters a closed route is held in front of the unregistration until a release event (while it is held, a connection for that prefix may be closed or fall through to the default). Oracle: every connection the base listener handed out is returned by exactly one Accept - the route registered for its prefix with the prefix consumed, "
              "otherwise the default listener with the byte stream identical from byte 0 - or is closed, never both, never twice; a connection that arrived while an Accept was pending on its listener is delivered, not closed; after Run returned no Accept stays pending. "
              "header: 1..3 goroutines writing 0..3 chunks each through a HeaderConn over a recording connection whose first or second underlying write can be held until everybody else is blocked; the wire must be the header once, first, followed by every payload byte exactly once, and each Write must return its own length. "
              "Non-trivial: a connection was delivered with routes registered or with the prefix split across writes (mux); >= 2 writes (header)."),
